@@ -112,6 +112,26 @@ def _ord(fn, inst):
     return "#?"
 
 
+def _paths(fn, limit=64):
+    """every acyclic path from entry to a return, as instruction lists (phis carry the block they were entered from)"""
+    out = []
+
+    def walk(b, seen, acc):
+        if len(out) > limit:
+            return
+        B = fn.blocks[b]
+        acc = acc + [(i, seen[-1] if seen else None) for i in B.insts]
+        if not B.succs:
+            out.append(acc)
+            return
+        for s_ in B.succs:
+            if s_ in seen or s_ == b:
+                continue
+            walk(s_, seen + [b], acc)
+    walk(0, [], [])
+    return out if out and len(out) <= limit else None
+
+
 def _straightline(fn):
     """instructions of fn in execution order if the function is a single path, else None"""
     order = []
@@ -138,17 +158,10 @@ def r2(ctx):
                                                                    "cmp_fp": "comparator is identical configuration on both tables"})):
         fn = pdb.fn(fname)
         ctx.touch(fn)
-        seq = _straightline(fn)
-        if seq is None:
-            raise AnalysisBroken("%s is no longer straight-line code; the swap simulation does not apply" % fname)
+        paths = _paths(fn)
+        if paths is None:
+            raise AnalysisBroken("%s: too many paths (or a loop) for the swap simulation" % fname)
         fields = [f["name"] for f in pdb.struct(struct)["fields"] if f["name"] not in keep]
-        content = {}
-        for t in (0, 1):
-            for f in fields:
-                content[(("arg", t), "%s.%s" % (struct, f))] = "%s.%s" % ("AB"[t], f)
-        ssa = {}
-        held = {}
-        bad_sections = []
 
         def cell(pe):
             if isinstance(pe, tuple) and pe[0] == "fld" and pe[1] in (("arg", 0), ("arg", 1)) and pe[2].startswith(struct + "."):
@@ -158,34 +171,55 @@ def r2(ctx):
             if isinstance(pe, tuple) and pe[0] == "fld" and isinstance(pe[1], tuple) and pe[1][0] == "alloca":
                 return pe
             return None
-        for i in seq:
-            if i.op == "call" and i.callee in ls.LOCK_FUNCS:
-                b, f = ls.lock_name(fn, i)
-                m = ls.LOCK_FUNCS[i.callee]
-                held[b] = m
-                continue
-            both = held.get(("arg", 0)) == "W" and held.get(("arg", 1)) == "W"
-            if i.op == "load":
-                c = cell(vf.expr(fn, i["ptr"]))
-                if c is not None and c in content:
-                    ssa[i.ref] = content[c]
-                    if isinstance(c[0], tuple) and c[0][0] == "arg" and not both:
-                        bad_sections.append(i)
-            elif i.op == "store":
-                c = cell(vf.expr(fn, i["ptr"]))
-                if c is not None:
-                    v = ssa.get(vf.strip_casts(fn, i["val"]))
-                    content[c] = v if v is not None else "?"
-                    if isinstance(c[0], tuple) and c[0][0] == "arg" and not both:
-                        bad_sections.append(i)
-            elif i.op == "call" and i.callee and i.callee.startswith("llvm.memcpy"):
-                d = cell(vf.expr(fn, i.args[0]))
-                s = cell(vf.expr(fn, i.args[1]))
-                if d is not None:
-                    content[d] = content.get(s, "?") if s is not None else "?"
-                    for c in (d, s):
-                        if c is not None and isinstance(c[0], tuple) and c[0][0] == "arg" and not both:
-                            bad_sections.append(i)
+
+        def simulate(seq):
+            content = {}
+            for t in (0, 1):
+                for f in fields:
+                    content[(("arg", t), "%s.%s" % (struct, f))] = "%s.%s" % ("AB"[t], f)
+            ssa = {}
+            held = {}
+            bad = []
+            for i, prev in seq:
+                if i.op == "call" and i.callee in ls.LOCK_FUNCS:
+                    b_, f_ = ls.lock_name(fn, i)
+                    held[b_] = ls.LOCK_FUNCS[i.callee]
+                    continue
+                both = held.get(("arg", 0)) == "W" and held.get(("arg", 1)) == "W"
+                if i.op == "phi":
+                    for v, pb in i["inc"]:
+                        if pb == prev and v in ssa:
+                            ssa[i.ref] = ssa[v]
+                elif i.op == "load":
+                    c = cell(vf.expr(fn, i["ptr"]))
+                    if c is not None and c in content:
+                        ssa[i.ref] = content[c]
+                        if isinstance(c[0], tuple) and c[0][0] == "arg" and not both:
+                            bad.append(i)
+                elif i.op == "store":
+                    c = cell(vf.expr(fn, i["ptr"]))
+                    if c is not None:
+                        v = ssa.get(vf.strip_casts(fn, i["val"]))
+                        content[c] = v if v is not None else "?"
+                        if isinstance(c[0], tuple) and c[0][0] == "arg" and not both:
+                            bad.append(i)
+                elif i.op == "call" and i.callee and i.callee.startswith("llvm.memcpy"):
+                    d = cell(vf.expr(fn, i.args[0]))
+                    s_ = cell(vf.expr(fn, i.args[1]))
+                    if d is not None:
+                        content[d] = content.get(s_, "?") if s_ is not None else "?"
+                        for c in (d, s_):
+                            if c is not None and isinstance(c[0], tuple) and c[0][0] == "arg" and not both:
+                                bad.append(i)
+            return content, bad
+        sims = [simulate(seq) for seq in paths]
+        bad_sections = [x for c_, bad in sims for x in bad]
+        # a field counts as exchanged only if every path exchanges it; the first path that does not is the one reported
+        content = sims[0][0]
+        for c_, bad in sims:
+            if any(c_.get((("arg", 0), "%s.%s" % (struct, f))) != "B." + f or c_.get((("arg", 1), "%s.%s" % (struct, f))) != "A." + f for f in fields):
+                content = c_
+                break
         for f in fields:
             a = content.get((("arg", 0), "%s.%s" % (struct, f)))
             b = content.get((("arg", 1), "%s.%s" % (struct, f)))
@@ -202,7 +236,7 @@ def r2(ctx):
             wr = [i for i in fn.all_insts() if i.op == "store" and vf.store_field(i) == "%s.%s" % (struct, f)]
             ctx.check(not wr, "C06.R2", "%s:%s-stays" % (fname, f), wr[0].loc() if wr else "%s:%d" % (fn.relfile, fn.line),
                       "field %s is not exchanged: %s" % (f, why), key="C06.R2:%s:%s:kept" % (fname, f))
-    ctx.floor("C06.R2", sum(1 for o in ctx.obls if o["rule"] == "C06.R2"), 6)
+    ctx.floor("C06.R2", sum(1 for o in ctx.obls if o["rule"] == ctx._rid("C06.R2")), 6)
 
 
 def r3(ctx, retsets):
